@@ -649,7 +649,9 @@ C11_NAMES = ["rule1", "Spam filter", "café", "日本語 ルール", "a:b", "[x]
              "back\\slash", "UPPER lower", "Filter", "Description", "# leading hash", "tab\tinside", "dots...", "a  b"]
 PRETEXTS = [("# Filter: ", "# Description: "), ("# rule:", "# about:"), ("#F ", "#D "), ("# Name=", "# Desc="),
             # markers are literal text: characters special to regular expressions / format strings mean nothing
-            ("# [rule] ", "# (about) "), ("#* ", "#+ "), ("#%s ", "#{0} "), ("#. ", "#$ "), ("#\\n ", "#\\d ")]
+            ("# [rule] ", "# (about) "), ("#* ", "#+ "), ("#%s ", "#{0} "), ("#. ", "#$ "), ("#\\n ", "#\\d "),
+            # markers are text, not bytes: non-ASCII prefixes (their length in bytes differs from their length in characters)
+            ("# Règle: ", "# À propos: "), ("# Фильтр: ", "# Описание: "), ("#規則 ", "#説明 ")]
 
 
 LOAD_EXTRA = [
@@ -681,9 +683,14 @@ def check_C11(report, tier, seed, replay=None):
         fs = factory.FiltersSet("t", pre[0], pre[1])
         pool = rng.sample(C11_NAMES, 4)
         ops = []
+        prev = None
         for step in range(rng.randrange(1, 9)):
             kind = rng.choice(["add", "add", "add", "update", "replace", "disable", "enable", "move", "remove"])
             nm = rng.choice(pool)
+            # a filter that has just been disabled is often edited next (update / replace under the same or a new name)
+            if prev is not None and prev[0] == "disable" and rng.random() < 0.5:
+                kind, nm = rng.choice(["update", "replace"]), prev[1]
+            prev = (kind, nm)
             try:
                 if kind in ("add", "update"):
                     conds = [gen_condition(rng, C19_VALUES) for _ in range(rng.randrange(1, 3))]
